@@ -46,6 +46,10 @@ def inline_constant_parameters(routine, external_only=True):
         variables = [v for v in variables if v not in routine.variables]
 
     def is_inline_parameter(v):
+        if isinstance(v, sym.Array):
+            # An element or section of a parameter array is not the array's initial value,
+            # and the import must stay while any of them is left: keep parameter arrays
+            return False
         return hasattr(v, 'type') and v.type.parameter and v.type.initial is not None
 
     # Create mapping for variables and imports
